@@ -123,6 +123,23 @@ def run(ctx):
         ctx.sample({k: (v if not isinstance(v, list) or len(v) < 80 else v[:80] + ['...']) for k, v in ev[j].items()})
     rej = ctx.judge('Trace_C11', ev, chunk=1500)
     ctx.traces += len(ev) - len(rej)
+    bad = {i for i, _ in rej}
+    good = [e for i, e in enumerate(ev) if i not in bad and len(e['text']) < 200]
+
+    def c_unescaped(e):
+        if e['k'] != 'frame':
+            return None
+        f = e['framed']
+        for j in range(len(f) - 3):
+            if f[j] == 10 and f[j + 1] == 45 and f[j + 2] == 32 and f[j + 3] == 45:
+                e['framed'] = f[:j + 1] + f[j + 3:]
+                return e
+        return None
+    ctx.selftest(lambda b: ctx.judge('Trace_C11', b), good,
+                 [('a dash line left unescaped', c_unescaped), ('re-read text differs', lambda e: dict(e, reread=e['reread'] + [120]) if e['k'] == 'reread' and not e['raised'] else None),
+                  ('verification falsy', lambda e: dict(e, verdict='falsy') if e['k'] == 'reread' and not e['raised'] else None),
+                  ('signed octets differ', lambda e: dict(e, hashdata=[e['hashdata'][0] ^ 1] + e['hashdata'][1:]) if e['k'] == 'canon' else None),
+                  ('Hash header misses a hash', lambda e: dict(e, hashes=e['hashes'] + [[88]]) if e['k'] == 'frame' else None)], 'C11')
     ctx.extra['events_by_kind'] = {k: sum(1 for e in ev if e['k'] == k) for k in ('frame', 'reread', 'canon', 'foreign')}
     for idx, clause in rej:
         e = ev[idx]
